@@ -327,7 +327,7 @@ func c07Solo(c *mon.Ctx) {
 				"name pattern":   {NameFilter: regexp.MustCompile("^" + a.name + "$")},
 				"include source": {IncludeSources: lint.SourceList{a.src}},
 				"exclude source": {ExcludeSources: lint.SourceList{lint.CABFBaselineRequirements}},
-				"exclude name":   {ExcludeNames: []string{"e_ca_is_ca"}},
+				"exclude name":   {ExcludeNames: []string{someCertLint()}},
 			} {
 				reg, err := g.Filter(opts)
 				c.R.Count("evaluations", 1)
@@ -392,7 +392,7 @@ func c07Configured(c *mon.Ctx) {
 		add := func(label string, o lint.FilterOptions) {
 			if r, err := g.Filter(o); err == nil && len(r.Names()) > 0 {
 				regs = append(regs, fr{r, "configured(" + d.Label + ") " + label})
-				if sub, err := r.Filter(lint.FilterOptions{ExcludeNames: []string{"e_ca_is_ca"}}); err == nil {
+				if sub, err := r.Filter(lint.FilterOptions{ExcludeNames: []string{someCertLint()}}); err == nil {
 					regs = append(regs, fr{sub, "configured(" + d.Label + ") filter of " + label})
 				}
 			}
@@ -402,7 +402,7 @@ func c07Configured(c *mon.Ctx) {
 			add("source of "+n, lint.FilterOptions{IncludeSources: lint.SourceList{InvBy[n].Meta.Source}})
 		}
 		add("all by pattern", lint.FilterOptions{NameFilter: regexpAll})
-		add("exclude one name", lint.FilterOptions{ExcludeNames: []string{"e_ca_is_ca"}})
+		add("exclude one name", lint.FilterOptions{ExcludeNames: []string{someCertLint()}})
 		for k := 0; k < 6; k++ {
 			if fo := randFilter(rng, false); !fo.Empty() {
 				add("random "+describeFilter(fo), fo)
